@@ -109,6 +109,8 @@ def run_api(ctx):
         # two resolutions in flight; the three-level tree root->p->c->g
         ctx.tlc("Lease", "MC_LeaseDeleg.tla", "MC_LeaseDeleg_two.cfg", workers=8, timeout=2400, heap="12g", tag="deleg-two")
         ctx.tlc("Lease", "MC_LeaseDeleg.tla", "MC_LeaseDeleg_full.cfg", workers=8, timeout=2400, heap="12g", tag="deleg-full")
+        # ... and the tree with a sibling under p
+        ctx.tlc("Lease", "MC_LeaseDeleg.tla", "MC_LeaseDeleg_sib.cfg", workers=8, timeout=2400, heap="12g", tag="deleg-sibling")
         never = {"ParentWithdraw", "ParentRepoint", "ParentRetime", "SeedFromDelegCache", "AskZone", "SelfReferral",
                  "DescendCached", "ProvisionalInsert", "InsertDeleg", "AnswerFromLeaf", "ServeAnswer", "TickD"}
         for r in runs:
